@@ -17,3 +17,8 @@ package set
 //@ func New
 //@ props C09
 //@ ensures result != nil && fresh(result) && forall(k, string, !has(result, k))
+
+//@ func NewWithSize
+//@ props C09 C12
+//@ requires size >= 0
+//@ ensures result != nil && fresh(result) && forall(k, string, !has(result, k))
